@@ -25,6 +25,7 @@
 #include <errno.h>
 #include <pthread.h>
 #include <sys/mman.h>
+#include <sys/stat.h>
 #include <sys/time.h>
 #include <sys/wait.h>
 
@@ -646,6 +647,7 @@ static void vf_neutral_name(const char *in, char *out, size_t ol) {
     else if (p[0] == 'p' && strchr("sdcz", p[1]) && p[1] && (!strncmp(p + 2, "util", 4) || !strncmp(p + 2, "memory", 6))) p[1] = 'X';
     else if (!strncmp(p, "sp_", 3) && strchr("sdcz", p[3]) && p[3] && (!strncmp(p + 4, "gem", 3) || !strncmp(p + 4, "trsv", 4))) p[3] = 'X';
     else if (strchr("cz", p[0]) && p[0] && !strncmp(p + 1, "_abs", 4)) p[0] = 'X';
+    else if (strchr("sdcz", p[0]) && p[0] && !strcmp(p + 1, "fill")) p[0] = 'X';
 }
 enum { VF_OK = 0, VF_EXIT, VF_SIGNAL, VF_ASAN, VF_TIMEOUT, VF_FAULT };
 typedef void (*vf_case_fn)(long idx, void *ctx);
@@ -689,6 +691,10 @@ static const char *vf_kind_name(int k) { return k == VF_EXIT ? "exit" : k == VF_
 static int vf_asan_summary(pid_t pid, char *out, size_t ol) {
     const char *pre = getenv("VF_ASAN_LOG"); if (!pre) return 0;
     char path[512]; snprintf(path, sizeof path, "%s.%d", pre, (int)pid);
+    /* process ids wrap around in long sweeps: the report file of an earlier process with the same pid (never read because that death was
+       classified otherwise) must not be taken for this one's - the first end-to-end thorough run attributed deaths to
+       "heap-use-after-free@?" that way.  Only a file written in the last 2 minutes counts. */
+    { struct stat sb_; if (stat(path, &sb_) != 0) return 0; if (time(NULL) - sb_.st_mtime > 120) { unlink(path); return 0; } }
     FILE *f = fopen(path, "r"); if (!f) return 0;
     char line[1024]; int ok = 0;
     while (fgets(line, sizeof line, f)) {
